@@ -91,6 +91,24 @@ T = {
          "The clock is a parameter (seconds since disconnection) and hook H1 records the disconnection (production code never does)."),
 }
 
+# session 5: statements added across properties (Properties/ActionOrder, HandlerOver, Reconnect)
+_AO = ("Order of the handlers' actions and what a write fault leaves behind, for every context state (Properties/ActionOrder): one request "
+       "writes at most its own packet, once; Ok(()) to a fire-and-forget caller only after the write and only if the transport took it "
+       "(success_reply_follows_the_write); a local refusal writes nothing, changes nothing, keeps run() serving (refusal_writes_nothing); a "
+       "write fault at an acknowledgement leaves the same bookkeeping and the same deliveries as a successful write "
+       "(ack_write_fault_changes_only_the_outcome); the acknowledgement is the last action for a PUBLISH; a PUBREL releases its identifier "
+       "and is answered whatever its reason.")
+_HO = ("handle_message / handle_packet over EVERY transport (TxHandler.lean, Properties/HandlerOver): composed with the write_all loop over an "
+       "arbitrary writer oracle the handler has a third outcome, suspended inside the write; the wire holds a prefix of the request's own "
+       "packet, the caller is told 'written' only when every byte is with the transport (told_written_means_written), a suspended handler "
+       "has told nobody anything (suspended_handler_has_told_nobody), over good / failing transports the result is the model's wok = true / "
+       "false result, and the bookkeeping for an inbound packet does not depend on what becomes of its acknowledgement's write.")
+_RC = ("Properties/Reconnect: set_up on a Context that was connected before yields, for every world, an empty framer / reader / writer and "
+       "leaves session, queue, operations and handles untouched (setup_starts_a_fresh_connection); the first read of the new connection is "
+       "framed as on a brand-new Context.")
+for _k, _v in {'C01': [_HO], 'C14': [_AO, _HO], 'C07': [_AO], 'C09': [_AO], 'C12': [_AO], 'C15': [_AO], 'C02': [_RC], 'C03': [_RC]}.items():
+    T[_k] = (T[_k][0] + ' ' + ' '.join(_v),) + tuple(T[_k][1:])
+
 
 def main():
     props = [json.loads(l) for l in open(os.path.join(ROOT, 'properties.jsonl'))]
